@@ -15,19 +15,32 @@ MUTANTS = {
    "        types.CellType(closure_map[name].cell_contents) for name in factory_code.co_freevars)"),
   ('m2_defaults_not_erased', 'malt/pyct/transpiler.py',
    "    node = self._erase_arg_defaults(node)\n", ""),
+  # (patterns of m3a-c / m6 re-based on the tree after fix 3c845d4, which assigns both attributes unconditionally)
   ('m3a_kwdefaults_only_with_defaults', 'malt/pyct/transpiler.py',
-   "    if kwdefaults:\n      new_fn.__kwdefaults__ = kwdefaults", "    if defaults and kwdefaults:\n      new_fn.__kwdefaults__ = kwdefaults"),
+   "    new_fn.__kwdefaults__ = kwdefaults\n", "    if defaults and kwdefaults:\n      new_fn.__kwdefaults__ = kwdefaults\n"),
   ('m3b_kwdefaults_never_reattached', 'malt/pyct/transpiler.py',
-   "    if kwdefaults:\n      new_fn.__kwdefaults__ = kwdefaults", "    pass"),
+   "    new_fn.__kwdefaults__ = kwdefaults\n", "    pass\n"),
   ('m3c_kwdefaults_copied', 'malt/pyct/transpiler.py',
-   "      new_fn.__kwdefaults__ = kwdefaults", "      new_fn.__kwdefaults__ = {k: (list(v) if isinstance(v, list) else v) for k, v in kwdefaults.items()}"),
+   "    new_fn.__kwdefaults__ = kwdefaults\n", "    new_fn.__kwdefaults__ = {k: (list(v) if isinstance(v, list) else v) for k, v in kwdefaults.items()} if kwdefaults else kwdefaults\n"),
   ('m4_globals_copied', 'malt/pyct/transpiler.py',
    "        globals_=fn.__globals__,", "        globals_=dict(fn.__globals__),"),
   ('m5_decorators_kept', 'malt/converters/functions.py',
    "        node.decorator_list = []", "        pass"),
   ('m6_defaults_from_cached_first_instance', 'malt/pyct/transpiler.py',
-   "    if defaults:\n      new_fn.__defaults__ = defaults", "    if defaults and new_fn.__defaults__ and len(new_fn.__defaults__) == len(defaults):\n      new_fn.__defaults__ = defaults"),
+   "    new_fn.__defaults__ = defaults\n", "    if defaults and new_fn.__defaults__ and len(new_fn.__defaults__) == len(defaults):\n      new_fn.__defaults__ = defaults\n"),
   ('m7_namespace_snapshot_instead_of_cells', 'malt/pyct/transpiler.py',
    "        closure=fn.__closure__ or (),", "        closure=tuple(types.CellType(v) for v in [inspect_utils.getnamespace(fn).get(n) for n in fn.__code__.co_freevars]),"),
+  # ---- dynamic conversion (api.converted_call): the instance of a bound method / callable object goes first, whatever
+  # it answers to bool() / == ; partials are unwrapped without losing or reordering their frozen arguments
+  ('m8_method_instance_tested_by_truth', 'malt/impl/api.py',
+   "      if f_self is not None:\n", "      if f_self:\n"),
+  ('m9_method_instance_tested_by_inequality', 'malt/impl/api.py',
+   "      if f_self is not None:\n", "      if f_self != None:\n"),
+  ('m10_callable_object_instance_tested_by_truth', 'malt/impl/api.py',
+   "      effective_args = (f,) + args\n", "      effective_args = ((f,) if f else ()) + args\n"),
+  ('m11_partial_frozen_keywords_dropped', 'malt/impl/api.py',
+   "      new_kwargs = f.keywords.copy()\n", "      new_kwargs = {}\n"),
+  ('m12_partial_frozen_args_after_call_args', 'malt/impl/api.py',
+   "    new_args = f.args + args\n", "    new_args = args + f.args\n"),
  ],
 }
